@@ -116,7 +116,9 @@ def default_inputs(rng, max_len=4, n_sent=6, cap=400):
                 ins.append(a + b[:rng.randint(1, len(b) - 1)])
             return ins
         k = max_len
-        while k > 0 and (len(g.terms) + 1) ** k > cap:
+        # the hand-picked corpus grammars are explored exhaustively one length further
+        cap_here = cap * 8 if cid.startswith("corpus") else cap
+        while k > 0 and (len(g.terms) + 1) ** k > cap_here:
             k -= 1
         ins.extend(g.strings_upto(k))
         # the hand-picked corpus grammars get many more sampled sentences (their defects need particular ones)
